@@ -462,6 +462,13 @@ def run_task(task):
     rng = common.rng_for(task["seed"], ID, task["run"])
     stats = Stats()
     trace = gen_trace(rng)
+    # reach: which object variants and target formats the workload really contained (a generator that silently drops
+    # a variant shows up here as a missing counter)
+    for m_ in trace["obj"].get("mods") or [None]:
+        stats.inc("probe.variant_" + (m_["op"] if m_ else "unmodified"))
+    for c_ in trace["calls"]:
+        if not c_.get("edit"):
+            stats.inc("probe.format_" + c_["fmt"])
     if trace["mode"] == "history":
         viols, nontriv = run_history(trace, stats)
         if nontriv:
